@@ -18,9 +18,9 @@ import (
 
 type Filt struct {
 	Focus, Ignore, Hide, Show, ShowFrom string
-	TagFocus, TagIgnore                  string
-	TagShow, TagHide                     string
-	Relative                             bool
+	TagFocus, TagIgnore                 string
+	TagShow, TagHide                    string
+	Relative                            bool
 }
 
 type filterCase struct {
@@ -612,24 +612,48 @@ func total(ss []msample, idx int) int64 {
 // showFromSharedHit: the recorded finding C06-showfrom-shared-trim applies to this case when some
 // location with a show_from match on a non-outermost line (and a non-matching binary) occurs in a
 // sample strictly below that sample's highest match.
-func showFromSharedHit(p *profile.Profile, re *regexp.Regexp) bool {
+func showFromSharedHit(p *profile.Profile, re, hide, show *regexp.Regexp) bool {
 	if re == nil {
 		return false
 	}
+	// the predicate looks at the lines that survive hide/show, which are applied before show_from
 	inner := map[*profile.Location]bool{}
 	matchLoc := map[*profile.Location]bool{}
+	gone := map[*profile.Location]bool{}
 	for _, l := range p.Location {
-		binMatch := l.Mapping != nil && re.MatchString(l.Mapping.File)
+		bin := ""
+		if l.Mapping != nil {
+			bin = l.Mapping.File
+		}
+		var surv []frame
+		if len(l.Line) == 0 {
+			surv = append(surv, frame{Bin: bin, Addr: l.Address})
+		}
+		for _, ln := range l.Line {
+			surv = append(surv, frame{Name: ln.Function.Name, File: ln.Function.Filename, Bin: bin, HasFn: true})
+		}
+		var kept []frame
+		for _, fr := range surv {
+			if hide != nil && fr.matches(hide) || show != nil && !fr.matches(show) {
+				continue
+			}
+			kept = append(kept, fr)
+		}
+		if len(kept) == 0 {
+			gone[l] = true
+			continue
+		}
+		binMatch := bin != "" && re.MatchString(bin)
 		last := -1
-		for i, ln := range l.Line {
-			if re.MatchString(ln.Function.Name) || re.MatchString(ln.Function.Filename) {
+		for i, fr := range kept {
+			if fr.HasFn && (re.MatchString(fr.Name) || re.MatchString(fr.File)) {
 				last = i
 			}
 		}
 		if binMatch || last >= 0 {
 			matchLoc[l] = true
 		}
-		if !binMatch && last >= 0 && last < len(l.Line)-1 {
+		if !binMatch && last >= 0 && last < len(kept)-1 {
 			inner[l] = true
 		}
 	}
@@ -645,7 +669,6 @@ func showFromSharedHit(p *profile.Profile, re *regexp.Regexp) bool {
 				return true
 			}
 		}
-		// the same location twice: the outer occurrence is the highest match, the inner one gets trimmed too
 	}
 	return false
 }
@@ -700,7 +723,7 @@ func check(c *filterCase, o *vk.Obs) []string {
 	o.LabelIf(labelsCut, "labels-removed")
 	o.NonTrivial = (removedSome && keptSome) || framesCut || labelsCut
 
-	sfHit := showFromSharedHit(p, comp(c.F.ShowFrom))
+	sfHit := showFromSharedHit(p, comp(c.F.ShowFrom), comp(c.F.Hide), comp(c.F.Show))
 	if len(got) != len(ex.samples) {
 		e.Addf("filters %+v: %d samples survive, the documentation says %d\n   want %v\n   got  %v", c.F, len(got), len(ex.samples), describe(ex.samples), describe(got))
 	} else {
